@@ -167,7 +167,8 @@ func TestRegress(t *testing.T) { hx.Regress(t, runCase) }
 
 // exhaustive: exit kind x handler shape x otherwise x finally x enclosing construct
 func tryMatrix(yield func(Case) bool) {
-	exits := []string{"fall", "break", "continue", "return", "raiseA", "raiseZ", "rterr"}
+	// (raiseA-in-list / rterr-in-map: the error comes from an item of a list / map literal which is NOT the last one)
+	exits := []string{"fall", "break", "continue", "return", "raiseA", "raiseZ", "rterr", "raiseA-in-list", "rterr-in-map"}
 	mk := func(n *int) *lang.S { *n++; return lang.Mark(fmt.Sprintf("m%d", *n)) }
 	for _, encl := range []string{"top", "loop", "func", "loopfunc"} {
 		for _, ex := range exits {
@@ -196,6 +197,12 @@ func tryMatrix(yield func(Case) bool) {
 							try.Body = append(try.Body, lang.ExprS(lang.Call(lang.Var("raise"), lang.Str("Z"))))
 						case "rterr":
 							try.Body = append(try.Body, lang.ExprS(lang.Op("plus", lang.Num("1"), lang.Str("a"))))
+						case "raiseA-in-list":
+							try.Body = append(try.Body, lang.Assign(lang.Var("lit"), lang.List(lang.Num("1"), lang.Call(lang.Var("raise"), lang.Str("A"), lang.Str("det"), lang.List(lang.Num("1"))), lang.Num("3"))),
+								lang.Rec(lang.Var("lit")))
+						case "rterr-in-map":
+							try.Body = append(try.Body, lang.Assign(lang.Var("lit"), lang.MapLit(lang.Str("a"), lang.Op("plus", lang.Num("1"), lang.Str("a")), lang.Str("b"), lang.Num("2"))),
+								lang.Rec(lang.Var("lit")))
 						}
 						clause := func(types []string, as string) *lang.Except {
 							x := &lang.Except{Types: types, As: as, Body: []*lang.S{mk(&n)}}
@@ -331,7 +338,7 @@ func TestExhaustive(t *testing.T) {
 	hx.Enumerate(t, "reentry-matrix", reentryMatrix, runCase)
 	hx.E.Exhaustive("reentry-matrix", "10 constructs with per-node run-time state (return in try/finally, range / list / condition loops, except handler, otherwise, try body) whose body calls the enclosing function again x {result observed, not observed} x recursion depth 1..3")
 	hx.Enumerate(t, "try-matrix", tryMatrix, runCase)
-	hx.E.Exhaustive("try-matrix", "exit kind {fallthrough, break, continue, return, raise listed, raise unlisted, runtime error} x 9 except-clause shapes x {otherwise} x {finally} x enclosing construct {top level, loop, function, loop in function}")
+	hx.E.Exhaustive("try-matrix", "exit kind {fallthrough, break, continue, return, raise listed, raise unlisted, runtime error, raise inside a list literal (not the last item), runtime error inside a map literal (not the last entry)} x 9 except-clause shapes x {otherwise} x {finally} x enclosing construct {top level, loop, function, loop in function}")
 }
 
 func TestProp(t *testing.T) {
